@@ -622,6 +622,9 @@ func c17Oracle(cr *caseRun) [][2]string {
 			for _, m := range it.Methods {
 				want[m.Name] = true
 			}
+			for _, m := range it.Embeds {
+				want[m.Name] = true
+			}
 		}
 	}
 	in, _ := parseGo(cr.C.Files[cr.C.SetupPath])
@@ -644,12 +647,14 @@ func c17Oracle(cr *caseRun) [][2]string {
 		}
 	}
 	got := map[string]int{}
+	gotTotal := 0
 	outIfaces := map[string]bool{}
 	for _, d := range f.Decls {
 		switch x := d.(type) {
 		case *ast.FuncDecl:
 			if !inFuncs[x.Name.Name] {
 				got[x.Name.Name]++
+				gotTotal++
 			}
 		case *ast.GenDecl:
 			for _, s := range x.Specs {
@@ -661,12 +666,19 @@ func c17Oracle(cr *caseRun) [][2]string {
 			}
 		}
 	}
+	wantTotal := 0
+	for _, it := range cr.C.Interfaces {
+		if it.Name == "Convergen" || it.Marked {
+			wantTotal += len(it.Methods) + len(it.Embeds)
+		}
+	}
 	for n := range want {
 		if got[n] == 0 {
 			vs = append(vs, [2]string{"method-of-marked-interface-without-function", n})
-		} else if got[n] > 1 {
-			vs = append(vs, [2]string{"method-with-several-functions", n})
 		}
+	}
+	if gotTotal != wantTotal {
+		vs = append(vs, [2]string{"number-of-generated-functions-differs-from-number-of-methods", fmt.Sprintf("%d functions for %d methods", gotTotal, wantTotal)})
 	}
 	for n := range got {
 		if !want[n] {
